@@ -55,7 +55,7 @@ def evaluate(ctx, vh, args):
     if rc != 0:
         raise Broken("C11 harness run failed", out[-3000:])
     rep = json.load(open(os.path.join(out_dir, "c11_report.json")))
-    cases = json.load(open(os.path.join(out_dir, "c11_cases.json")))
+    cases = json.load(open(os.path.join(out_dir, "c11_cases.json"))) or []
     ok, log = common.coq_make(["theories/StakeCheck.vo"])
     if not ok:
         raise Broken("the model (Stake.v / StakeCheck.v) does not build", log[-3000:])
@@ -64,7 +64,7 @@ def evaluate(ctx, vh, args):
         return common.coqc_file(f, cwd=out_dir)
     mm, mon, trg = [], [], []
     with ThreadPoolExecutor(max_workers=12) as ex:
-        for ok, cout in ex.map(one, rep["files"]):
+        for ok, cout in ex.map(one, rep.get("files") or []):
             if not ok:
                 raise Broken("the model could not be evaluated on the recorded histories (cases file does not check)", cout[-3000:])
             mm += triples(common.parse_print(cout, "MMv"))
